@@ -154,7 +154,13 @@ def run(pid, tier, ev=None, vd=None, finish=True, want_label=None):
             open(pth, "wb").write(data)
             hexes[vlib.run_cmd([bins["vh_lib"], "b3", pth]).stdout.decode().strip()] = c
         nh = 80 if tier == "quick" else 2500
-        hrecs = bh.run_all(copia, os.path.join(work, "h"), [(vlib.seed() * 10007 + i, 24, hexes) for i in range(nh)], pairs=True)
+        # one more version: a symbolic link (to a file outside both roots); bisync fingerprints its target string
+        link_target = os.path.join(work, "link-target-file")
+        open(link_target, "wb").write(b"behind the link\n")
+        lt = os.path.join(work, "hclink")
+        open(lt, "wb").write(link_target.encode())
+        hexes[vlib.run_cmd([bins["vh_lib"], "b3", lt]).stdout.decode().strip()] = bh.LINK
+        hrecs = bh.run_all(copia, os.path.join(work, "h"), [(vlib.seed() * 10007 + i, 24, hexes) for i in range(nh)], pairs=True, link_target=link_target)
         hpath = os.path.join(work, "hist.ndjson")
         hfiles = []
         for k in range(0, len(hrecs), 3000):
